@@ -202,6 +202,9 @@ def run(run):
             facts.drop(F)
     run.floor('C07.c', 40)
     run.floor('C07.e', 8)
+    from gen import static_units as _su
+    run.guard('configuration setters', _su.report, run, 'C07.g', _su.config_unit('C07.g'))      # the configured value survives every order of the setters
+    run.floor('C07.g', 1)
     run.floor('C07.f', 20)
     run.explanation = (
         'Type-level layout facts (sizeof / offsetof / alignof as computed by clang\'s record layout) for the payload '
